@@ -110,6 +110,9 @@ fn entries() -> Vec<Entry> {
         entry!(shapes::S15BoolsOnly),
         entry!(shapes::S16Normalised),
         entry!(shapes::S17Echo),
+        entry!(shapes::S18SubFirst),
+        entry!(shapes::S19SubBetween),
+        entry!(shapes::S20SubThenBare),
         // inner levels on their own as well
         entry!(shapes::Arg13),
         entry!(shapes::Other13),
@@ -761,6 +764,174 @@ fn align_sweep(st: &mut St, e: &Entry, r: &mut Rng, lens: &[usize], shard: u64, 
     }
 }
 
+fn doc_words(line: &str) -> Vec<String> {
+    line.split(|c: char| !(c.is_ascii_alphanumeric() || c == '_'))
+        .filter(|w| w.starts_with("DOC_"))
+        .map(str::to_string)
+        .collect()
+}
+
+#[derive(Debug)]
+struct HelpEntry {
+    section: &'static str,
+    heads: Vec<String>,
+    docs: Vec<String>,
+}
+
+/// Split a help text the way tiny-cli lays it out: header (struct docs, Usage line), then the
+/// sections "Commands:" (one line per command: `  name[ - first doc line]`), "Arguments:" and
+/// "Options:" (entry = head line `  [NAME]` / `  -s, --long` / `  -s` / `      --long`, then its
+/// doc lines indented by 8 spaces, then an empty line).
+fn parse_help(h: &str) -> (Vec<String>, Vec<HelpEntry>, Vec<String>) {
+    let mut header = Vec::new();
+    let mut loose = Vec::new();
+    let mut entries: Vec<HelpEntry> = Vec::new();
+    let mut section = "header";
+    let mut open = false;
+    for line in h.lines() {
+        match line {
+            "Commands:" => {
+                section = "Commands";
+                open = false;
+                continue;
+            }
+            "Arguments:" => {
+                section = "Arguments";
+                open = false;
+                continue;
+            }
+            "Options:" => {
+                section = "Options";
+                open = false;
+                continue;
+            }
+            _ => {}
+        }
+        if section == "header" {
+            header.extend(doc_words(line));
+        } else if line.trim().is_empty() {
+            open = false;
+        } else if section == "Commands" {
+            let name = line.split_whitespace().next().unwrap_or("").to_string();
+            entries.push(HelpEntry {
+                section,
+                heads: vec![name],
+                docs: doc_words(line),
+            });
+            open = false;
+        } else if line.starts_with("        ") {
+            if open {
+                entries.last_mut().unwrap().docs.extend(doc_words(line));
+            } else {
+                loose.extend(doc_words(line));
+            }
+        } else {
+            entries.push(HelpEntry {
+                section,
+                heads: line.trim().split(", ").map(str::to_string).collect(),
+                docs: doc_words(line),
+            });
+            open = true;
+        }
+    }
+    (header, entries, loose)
+}
+
+/// Every documented item's doc tokens sit in that item's own help entry, once; no entry carries
+/// a token of another item; nothing from another level shows up. Returns (what, got, want).
+fn doc_placement(g: &Grammar) -> Vec<(&'static str, String, String)> {
+    let mut out = Vec::new();
+    let (header, entries, loose) = parse_help(&g.help);
+    let all: Vec<String> = doc_words(&g.help);
+    let mut owned: Vec<&str> = g.doc.clone();
+    for o in &g.opts {
+        owned.extend(o.doc.iter());
+    }
+    for p in &g.pos {
+        owned.extend(p.doc.iter());
+    }
+    if let Some(s) = &g.sub {
+        owned.extend(s.field_doc.iter());
+        for v in &s.var_docs {
+            owned.extend(v.iter());
+        }
+    }
+    for w in &all {
+        if !owned.contains(&w.as_str()) {
+            out.push(("doc-from-another-level", format!("{w} in {:?}", g.help), "only this level's doc comments".to_string()));
+        }
+    }
+    for t in &owned {
+        let n = all.iter().filter(|w| w == t).count();
+        if n > 1 {
+            out.push(("doc-repeated", format!("{t} x{n} in {:?}", g.help), "at most once".to_string()));
+        }
+    }
+    for t in &g.doc {
+        if !header.iter().any(|w| w == t) {
+            out.push(("struct-doc-missing-from-header", format!("{:?}", g.help), format!("{t} before the Usage line")));
+        }
+    }
+    if !loose.is_empty() {
+        out.push(("doc-attached-to-wrong-item", format!("doc lines outside any entry: {loose:?}"), "none".into()));
+    }
+    let mut expect: Vec<(&'static str, Vec<String>, Vec<&str>, bool)> = Vec::new(); // section, heads, docs, all lines shown
+    for o in &g.opts {
+        expect.push(("Options", o.lits.iter().map(|l| (*l).to_string()).collect(), o.doc.clone(), true));
+    }
+    for p in &g.pos {
+        expect.push(("Arguments", vec![format!("[{}]", p.name.to_uppercase())], p.doc.clone(), true));
+    }
+    if let Some(s) = &g.sub {
+        for (i, (lit, _)) in s.vars.iter().enumerate() {
+            // the command list shows the first doc line of a variant only
+            expect.push(("Commands", vec![(*lit).to_string()], s.var_docs[i].clone(), false));
+        }
+    }
+    let mut claimed = vec![false; entries.len()];
+    for (section, heads, docs, all_lines) in &expect {
+        let found = entries.iter().position(|en| {
+            en.section == *section && en.heads.len() == heads.len() && heads.iter().all(|h| en.heads.contains(h))
+        });
+        let Some(ei) = found else {
+            out.push(("entry-not-found", format!("{:?}", g.help), format!("an entry for {heads:?} under {section}")));
+            continue;
+        };
+        claimed[ei] = true;
+        let en = &entries[ei];
+        for w in &en.docs {
+            if !docs.contains(&w.as_str()) {
+                out.push((
+                    "doc-attached-to-wrong-item",
+                    format!("entry {:?} carries {w}", en.heads),
+                    if docs.is_empty() { "no doc text (the item is undocumented)".to_string() } else { format!("only {docs:?}") },
+                ));
+            }
+        }
+        let must: &[&str] = if *all_lines { docs } else { &docs[..docs.len().min(1)] };
+        for t in must {
+            if !en.docs.iter().any(|w| w == t) {
+                out.push(("doc-missing-from-own-entry", format!("entry {:?} carries {:?}", en.heads, en.docs), format!("{t}")));
+            }
+        }
+    }
+    for (ei, en) in entries.iter().enumerate() {
+        if !claimed[ei] {
+            out.push(("undeclared-entry", format!("{:?} under {}", en.heads, en.section), "only declared items".into()));
+        }
+    }
+    if let Some(s) = &g.sub {
+        for en in &entries {
+            for w in &en.docs {
+                if s.field_doc.contains(&w.as_str()) {
+                    out.push(("doc-attached-to-wrong-item", format!("entry {:?} carries {w} (doc of the subcommand field)", en.heads), "not in another item's entry".into()));
+                }
+            }
+        }
+    }
+    out
+}
+
 /// help text of every level names every declared literal / positional / command
 fn static_checks(st: &mut St, ents: &[Entry]) {
     fn level(st: &mut St, e: &Entry, g: &Grammar) {
@@ -792,6 +963,17 @@ fn static_checks(st: &mut St, ents: &[Entry]) {
         if !g.help.contains("Usage:") {
             missing.push("Usage:".into());
         }
+        for (what, got, want) in doc_placement(g) {
+            st.viol(
+                &format!("C20/help-content/{}/{what}", g.name),
+                e,
+                &[],
+                "static/doc-comments",
+                &got,
+                &want,
+            );
+        }
+        st.distinct(&[g.name, "help-doc-placement"]);
         if !missing.is_empty() {
             st.viol(
                 &format!("C20/help-content/{}/declared-item-missing", g.name),
